@@ -81,7 +81,7 @@ def render (before : Nat) (st : Idx DSel) : String :=
   let c := showList (st.eps.flatMap (fun p => p.2.cached.map (fun s => s!"{p.1}:{s}")))
   let t := showList (st.tries.flatMap (fun p => p.2.map (fun c => s!"{p.1}:{showCidr c}")))
   let e := if st.suppress then "-" else showList ((st.out.drop before).map showEvent)
-  if st.panicked then "PANIC" else s!"D={d} R={r} C={c} T={t} E={e}"
+  if st.panicked then "PANIC" else s!"D={d} R={r} C={c} T={t} E={e}" ++ (if st.underflow then " UNDERFLOW" else "")
 
 def applyOp (st : Idx DSel) (op : Op DSel) : Idx DSel × String :=
   if st.panicked then (st, "dead") else
